@@ -3,6 +3,11 @@ kinds: 'dens'  PhiManip.phi_1D on a grid
        'hist'  a size history through Integration.one_pop / Demographics1D / DFE.DemogSelModels, wrapped by
                Numerics.make_extrap_func / make_extrap_log_func, at several Integration.timescale_factor values
        'stat'  stationarity: phi_1D(...) integrated further by one_pop with the same parameters
+       'histx' a history given as ABSOLUTE-time functions nu(t), theta0(t), gamma(t), integrated by one call or by chained
+               calls with initial_t = start and T = end of each piece, optionally with a shifted time origin
+       'drv1'  a few steps of one_pop with every argument of its signature (initial_t, frozen, deme_ids, each parameter
+               as a number / constant function / linear function of time)
+       'chain' one call over [t0, T] against two calls split at a step boundary of the single call
 """
 import sys, json, math, warnings, logging, os
 warnings.filterwarnings('ignore')
@@ -135,22 +140,163 @@ def snmfix(c):
     Integration.timescale_factor = 1e-3
     return {'before': fl(phi), 'after': fl(out), 'xx': fl(xx)}
 
+# ------------------------------------------------------------------------------------------------
+# histories with ABSOLUTE-time parameter functions, integrated by one or several calls with initial_t / T
+
+class AbsFuncs:
+    """parameter functions of absolute time for a history given as epochs (oldest first, the first one starting at
+    time 0): nu (piecewise constant / exponential), theta0 and gamma (piecewise constant).  Epoch i is in force on
+    (edge_{i-1}, edge_i] (an implicit step ending at an edge uses the parameters of the epoch that ends there); the
+    comparison leaves 1e-9 of the total length so that float rounding of current_t + this_dt never decides the epoch.
+    Outside [0, Ttot] - where an integration over [0, Ttot] never looks - the functions return the 'outside' values."""
+    def __init__(self, c):
+        self.eps = c['epochs']
+        self.edges = [float(v) for v in np.cumsum([e['T'] for e in self.eps])]
+        self.starts = [0.0] + self.edges[:-1]
+        self.tol = 1e-9 * self.edges[-1]
+        self.outside = c['outside']
+        self.shift = float(c.get('shift', 0.0))
+        self.evaluated = []
+    def idx(self, t):
+        if t < -self.tol or t > self.edges[-1] + self.tol:
+            return None
+        for i, e in enumerate(self.edges):
+            if t <= e + self.tol:
+                return i
+    def nu_abs(self, t):
+        i = self.idx(t)
+        if i is None:
+            return self.outside['nu']
+        e = self.eps[i]
+        if e['kind'] == 'exp':
+            return e['nu_start'] * math.exp(math.log(e['nu_end'] / e['nu_start']) * (t - self.starts[i]) / e['T'])
+        return e['nu']
+    def theta_abs(self, t):
+        i = self.idx(t)
+        return self.outside['theta'] if i is None else self.eps[i]['theta']
+    def gamma_abs(self, t):
+        i = self.idx(t)
+        return self.outside['gamma'] if i is None else self.eps[i]['gamma']
+    def arg(self, name, as_func, a, b):
+        """the argument passed for one call over the absolute interval (a, b] (both already without the shift)"""
+        f = {'nu': self.nu_abs, 'theta0': self.theta_abs, 'gamma': self.gamma_abs}[name]
+        if name in as_func:
+            s = self.shift
+            return (lambda t: f(t - s))
+        # a plain number: only legitimate when the parameter does not change inside this call
+        ia, ib = self.idx(a + 2 * self.tol), self.idx(b)
+        key = {'nu': 'nu', 'theta0': 'theta', 'gamma': 'gamma'}[name]
+        vals = set()
+        for i in range(ia, ib + 1):
+            if name == 'nu' and self.eps[i]['kind'] == 'exp':
+                raise RuntimeError('generator: nu changes inside the call (%r, %r] but is not passed as a function' % (a, b))
+            vals.add(self.eps[i][key])
+        if len(vals) != 1:
+            raise RuntimeError('generator: %s changes inside the call (%r, %r] but is not passed as a function' % (name, a, b))
+        vb = vals.pop()
+        return float(vb)
+
+def histx_model(params, ns, pts):
+    c = params
+    F = AbsFuncs(c)
+    xx = Numerics.default_grid(pts)
+    phi = PhiManip.phi_1D(xx, theta0=c['theta_anc'])
+    cuts = c['cuts']; s = F.shift
+    for a, b in zip(cuts[:-1], cuts[1:]):
+        kw = dict(nu=F.arg('nu', c['as_func'], a, b), theta0=F.arg('theta0', c['as_func'], a, b), gamma=F.arg('gamma', c['as_func'], a, b))
+        if s != 0 or a != 0 or c.get('pass_zero_t0'):
+            kw['initial_t'] = s + a
+        phi = Integration.one_pop(phi, xx, s + b, **kw)
+    return dadi.Spectrum.from_phi(phi, ns, (xx,))
+
+def histx(c):
+    f = Numerics.make_extrap_log_func(histx_model) if c['extrap'] == 'log' else Numerics.make_extrap_func(histx_model)
+    out = {}
+    for tf in c['tfs']:
+        Integration.timescale_factor = tf
+        fs = f(c, (c['n'],), c['pts_l'])
+        out[repr(tf)] = fl(np.asarray(fs.data))
+    Integration.timescale_factor = 1e-3
+    return {'fs': out}
+
+# ------------------------------------------------------------------------------------------------
+# one_pop with every argument of its signature, for the entry-by-entry comparison with integrate_const / integrate_tdep
+# started at time t0 (Model/NDSweep.v)
+
+PAR1 = ('nu', 'gamma', 'h', 'beta', 'theta0')
+
+def drv1_kwargs(c, record=None):
+    kw = {}
+    for name in PAR1:
+        v, s = c['par'][name]
+        form = c['form'][name]
+        if form == 'scalar':
+            kw[name] = v
+        elif form == 'const':
+            kw[name] = (lambda t, v=v: v)
+        else:
+            kw[name] = (lambda t, v=v, s=s: v + s * t)
+    if record is not None:
+        f = kw['nu']
+        def nu_rec(t, f=f):
+            record.append(float(t))
+            return f(t)
+        kw['nu'] = nu_rec
+    if 'frozen' in c:
+        kw['frozen'] = c['frozen']
+    if 'deme_ids' in c:
+        kw['deme_ids'] = c['deme_ids']
+    return kw
+
+def drv1(c):
+    Integration.timescale_factor = c['tf']
+    xx = np.array(c['grid'], dtype=float)
+    phi = np.array(c['phi'], dtype=float)
+    kw = drv1_kwargs(c)
+    if c.get('pass_t0', True):
+        kw['initial_t'] = c['t0']
+    res = Integration.one_pop(phi, xx, c['T'], **kw)
+    Integration.timescale_factor = 1e-3
+    return {'res': fl(res), 'input_untouched': bool(np.array_equal(phi, np.array(c['phi'], dtype=float)))}
+
+def chain(c):
+    """one call over [t0, T] against two calls [t0, t1], [t1, T] with t1 = the time reached by the single call after
+    'cut_step' steps (read off the arguments with which the size function is called)"""
+    Integration.timescale_factor = c['tf']
+    xx = np.array(c['grid'], dtype=float)
+    phi = np.array(c['phi'], dtype=float)
+    times = []
+    single = Integration.one_pop(phi, xx, c['T'], initial_t=c['t0'], **drv1_kwargs(c, record=times))
+    out = {'single': fl(single), 'times': times}
+    k = c['cut_step']
+    if not (len(times) >= k + 2):
+        out['error'] = 'generator: the single call made %d steps, cut_step = %d' % (len(times) - 1, k)
+        return out
+    t1 = times[k]
+    out['t1'] = t1
+    leg1 = Integration.one_pop(phi, xx, t1, initial_t=c['t0'], **drv1_kwargs(c))
+    leg2 = Integration.one_pop(leg1, xx, c['T'], initial_t=t1, **drv1_kwargs(c))
+    Integration.timescale_factor = 1e-3
+    out.update(leg1=fl(leg1), leg2=fl(leg2))
+    return out
+
 def one(c):
     rec = {'id': c['id']}
     try:
-        rec.update({'dens': dens, 'hist': hist, 'stat': stat, 'drv': drv, 'snmfix': snmfix}[c['kind']](c))
+        rec.update({'dens': dens, 'hist': hist, 'stat': stat, 'drv': drv, 'snmfix': snmfix, 'histx': histx, 'drv1': drv1, 'chain': chain}[c['kind']](c))
     except Exception as e:
         rec['error'] = type(e).__name__ + ': ' + str(e)[:300]
     return rec
 
 def main():
     cases = json.load(sys.stdin)
-    heavy = [c for c in cases if c['kind'] not in ('dens', 'drv', 'snmfix')]
-    light = [c for c in cases if c['kind'] in ('dens', 'drv', 'snmfix')]
+    LIGHT = ('dens', 'drv', 'snmfix', 'drv1', 'chain')
+    heavy = [c for c in cases if c['kind'] not in LIGHT]
+    light = [c for c in cases if c['kind'] in LIGHT]
     out = [one(c) for c in light]
     if len(heavy) > 3:
         import multiprocessing as mp
-        with mp.get_context('fork').Pool(min(6, len(heavy))) as pool:
+        with mp.get_context('fork').Pool(min(int(os.environ.get('C01_POOL', '6')), len(heavy))) as pool:
             out += pool.map(one, heavy, chunksize=1)
     else:
         out += [one(c) for c in heavy]
